@@ -103,7 +103,7 @@ static void cmd_diag(const J& c)
         J x = J::obj();
         x.set("lvl", d.level).set("code", (long long)d.code).set("L", (long long)d.line).set("C", (long long)d.col).set("file", base_name(d.file));
         diags.push(x);
-        scan_frames(d.text, frames);
+        if (d.level <= 1) { scan_frames(d.text, frames); }   // stack traces are part of fatal/error messages
     }
     o.set("diags", diags).set("frames", frames);
     J lm = J::obj();
